@@ -24,23 +24,58 @@ MANIFEST = {
     "design_ref": "DESIGN.md section 5, C08",
 }
 
-E_JOBS, N_JOBS = 2, 2
+N_JOBS = 2
+WORLDS = (2, 0)      # E = jobs of the committed earlier update (0: the open update is the first one)
 
 
-def world(seed):
+def spec_of(i):
+    return {"job_id": i, "absolute_job_group_id": 0, "process": {"type": "docker", "image": "i", "command": ["true"]},
+            "resources": {"cpu": "0.25", "memory": "standard", "storage": "1Gi"}}
+
+
+def world(seed, e_jobs):
     from vlib.batchenv import BatchWorld
 
     w = BatchWorld(seed=seed)
     b = w.create_batch("tok").value
-    u1, _, _ = w.create_update(b, "t1", E_JOBS, 0).value
-    spec = lambda i: {"job_id": i, "absolute_job_group_id": 0, "process": {"type": "docker", "image": "i", "command": ["true"]},  # noqa: E731
-                      "resources": {"cpu": "0.25", "memory": "standard", "storage": "1Gi"}}
-    r = w.create_jobs(b, u1, [spec(i) for i in range(1, E_JOBS + 1)])
+    if e_jobs == 0:
+        u1, _, sj = w.create_update(b, "t1", N_JOBS, 0).value
+        assert sj == 1
+        return w, b, u1
+    u1, _, _ = w.create_update(b, "t1", e_jobs, 0).value
+    r = w.create_jobs(b, u1, [spec_of(i) for i in range(1, e_jobs + 1)])
     assert r.kind == "ok", r
     assert w.commit(b, u1).kind == "ok"
     u2, _, sj = w.create_update(b, "t2", N_JOBS, 0).value
-    assert sj == E_JOBS + 1
+    assert sj == e_jobs + 1
     return w, b, u2
+
+
+def finishes(w, b, u, bunch):
+    """Submit the rest of the update, commit it, run every job that becomes Ready to Success; True iff every job of the batch
+    ends in a terminal state and the batch is reported complete."""
+    rest = [i for i in range(1, N_JOBS + 1) if i not in {j["id"] for j in bunch}]
+    if rest:
+        r = w.create_jobs(b, u, [spec_of(i) for i in rest])
+        if r.kind != "ok":
+            return False
+    if w.commit(b, u).kind != "ok":
+        return False
+    w.add_instance("fin-i", cores_mcpu=16000)
+    w.activate_instance("fin-i")
+    for n in range(20):
+        ready = sorted(r["job_id"] for r in w.rows("jobs", batch_id=b) if r["state"] == "Ready")
+        if not ready:
+            break
+        for j in ready:
+            a = f"f{n}x{j}"
+            r = w.schedule_job(b, j, a, "fin-i")
+            if r.kind != "ok" or r.value["rc"] != 0:
+                return False
+            if w.mark_job_complete(b, j, a, "fin-i", "Success", 1, 2, "completed").kind != "ok":
+                return False
+    states = {r["job_id"]: r["state"] for r in w.rows("jobs", batch_id=b)}
+    return all(s in ("Success", "Failed", "Error", "Cancelled") for s in states.values()) and w.rows("batches", id=b)[0]["state"] == "complete"
 
 
 def dump(w):
@@ -55,56 +90,62 @@ def run(ctx):
     from hailtop.utils.validate import ValidationError
 
     wd = tlc.prepare_dir(ctx.build / "tlc", ["submit"])
-    env = {"SV_INPUTS": wd / "inputs.ndjson", "SV_CASES": wd / "cases.ndjson", "SV_VERDICT": wd / "verdict.json"}
-    tlc.evaluate(wd, "SubmitValidateGen", env=env)
-    inputs = [json.loads(l)["b"] for l in (wd / "inputs.ndjson").read_text().splitlines() if l.strip()]
-    if not ctx.quick:
-        pass
-    cases = []
-    for n, bunch in enumerate(inputs):
-        w, b, u2 = world(ctx.seed)
-        before = dump(w)
-        specs = []
-        for j in bunch:
-            s = {"job_id": j["id"], "absolute_job_group_id": 0, "process": {"type": "docker", "image": "i", "command": ["true"]},
-                 "resources": {"cpu": "0.25", "memory": "standard", "storage": "1Gi"}}
-            if j["abs"]:
-                s["absolute_parent_ids"] = list(j["abs"])
-            if j["rel"]:
-                s["in_update_parent_ids"] = list(j["rel"])
-            specs.append(s)
-        try:
-            validate_and_clean_jobs(specs)
-            r = w.create_jobs(b, u2, specs)
-            accepted = r.kind == "ok"
-            outcome = repr(r)
-        except ValidationError as e:
-            accepted = False
-            outcome = f"ValidationError({e.reason})"
-        after = dump(w)
-        rows = sorted(r["job_id"] for r in w.rows("jobs", batch_id=b) if r["job_id"] > E_JOBS or r["update_id"] == u2)
-        rows = sorted(set(rows) - set(range(1, E_JOBS + 1)))
-        edges = sorted([r["job_id"], r["parent_id"]] for r in w.rows("job_parents", batch_id=b))
-        cases.append({"b": bunch, "accepted": accepted, "unchanged": before == after, "rows": rows, "edges": edges, "outcome": outcome})
-        w.close()
-    with open(env["SV_CASES"], "w") as f:
-        for c in cases:
-            f.write(json.dumps({k: c[k] for k in ("b", "accepted", "unchanged", "rows", "edges")}) + "\n")
-    tlc.evaluate(wd, "SubmitValidateVerdict", env=env)
-    verdict = json.loads((wd / "verdict.json").read_text())
-    assert verdict["n"] == len(cases)
-    if verdict["accepted"] == 0 or verdict["accepted"] == len(cases):
-        raise RuntimeError("vacuous acceptance rule")
-    for i in verdict["bad"]:
-        c = cases[i - 1]
-        kind = "accepted" if c["accepted"] else ("rejected" if c["unchanged"] else "rejected-but-changed")
-        ctx.violation(f"submit:{kind}:{'range' if any(not 1 <= j['id'] <= N_JOBS for j in c['b']) else 'parents'}", c)
-    ctx.cov.update(states=2 * len(cases), transitions=len(cases), traces_validated_against_impl=len(cases), evaluations=len(cases),
-                   distinct_nontrivial=len(cases), exhaustive=True,
-                   rule=f"all one- and two-job bunches of SubmitValidate.Inputs (E={E_JOBS} existing jobs, update of N={N_JOBS}); each call/return judged by TLC; "
-                        f"{verdict['accepted']} of them must be accepted")
-    for c in cases[:: max(1, len(cases) // 4)][:4]:
-        ctx.sample(c)
+    n_cases = n_acc = 0
+    for e_jobs in WORLDS:
+        env = {"SV_INPUTS": wd / f"inputs{e_jobs}.ndjson", "SV_CASES": wd / f"cases{e_jobs}.ndjson", "SV_VERDICT": wd / f"verdict{e_jobs}.json",
+               "SV_E": str(e_jobs)}
+        tlc.evaluate(wd, "SubmitValidateGen", env=env)
+        inputs = [json.loads(l)["b"] for l in env["SV_INPUTS"].read_text().splitlines() if l.strip()]
+        cases = []
+        for n, bunch in enumerate(inputs):
+            w, b, u2 = world(ctx.seed, e_jobs)
+            before = dump(w)
+            specs = []
+            for j in bunch:
+                s = spec_of(j["id"])
+                if j["abs"]:
+                    s["absolute_parent_ids"] = list(j["abs"])
+                if j["rel"]:
+                    s["in_update_parent_ids"] = list(j["rel"])
+                specs.append(s)
+            try:
+                validate_and_clean_jobs(specs)
+                r = w.create_jobs(b, u2, specs)
+                accepted = r.kind == "ok"
+                outcome = repr(r)
+            except ValidationError as e:
+                accepted = False
+                outcome = f"ValidationError({e.reason})"
+            after = dump(w)
+            rows = sorted(set(r["job_id"] for r in w.rows("jobs", batch_id=b)) - set(range(1, e_jobs + 1)))
+            edges = sorted([r["job_id"], r["parent_id"]] for r in w.rows("job_parents", batch_id=b))
+            fin = finishes(w, b, u2, bunch) if accepted else False
+            cases.append({"world": {"earlier_jobs": e_jobs, "update_size": N_JOBS}, "b": bunch, "accepted": accepted, "unchanged": before == after,
+                          "rows": rows, "edges": edges, "fin": fin, "outcome": outcome})
+            w.close()
+        with open(env["SV_CASES"], "w") as f:
+            for c in cases:
+                f.write(json.dumps({k: c[k] for k in ("b", "accepted", "unchanged", "rows", "edges", "fin")}) + "\n")
+        tlc.evaluate(wd, "SubmitValidateVerdict", env=env)
+        verdict = json.loads(env["SV_VERDICT"].read_text())
+        assert verdict["n"] == len(cases)
+        if verdict["accepted"] == 0 or verdict["accepted"] == len(cases):
+            raise RuntimeError("vacuous acceptance rule")
+        if not any(c["accepted"] and c["fin"] for c in cases):
+            raise RuntimeError("vacuous: no accepted bunch was driven to completion")
+        for i in verdict["bad"]:
+            c = cases[i - 1]
+            kind = ("accepted-cannot-finish" if c["accepted"] and not c["fin"] else "accepted") if c["accepted"] else \
+                ("rejected" if c["unchanged"] else "rejected-but-changed")
+            ctx.violation(f"submit:{kind}:{'range' if any(not 1 <= j['id'] <= N_JOBS for j in c['b']) else 'parents'}", c)
+        n_cases += len(cases)
+        n_acc += verdict["accepted"]
+        for c in cases[:: max(1, len(cases) // 3)][:3]:
+            ctx.sample(c)
+    ctx.cov.update(states=2 * n_cases, transitions=n_cases, traces_validated_against_impl=n_cases, evaluations=n_cases,
+                   distinct_nontrivial=n_cases, exhaustive=True,
+                   rule=f"all one- and two-job bunches of SubmitValidate.Inputs in two worlds (E={WORLDS[0]} committed earlier jobs; E=0: first update), update of "
+                        f"N={N_JOBS}; each call/return judged by TLC, every accepted bunch driven to completion on the real procedures; {n_acc} of them must be accepted")
     # (2) liveness on the specification
     P = B.programs()
     for n in (["chain2", "nest_s"] if ctx.quick else ["chain2", "nest_s", "upd2", "diamond", "sib"]):
@@ -112,4 +153,7 @@ def run(ctx):
         ctx.add_tlc(res, f"BatchDBLive program {n}: C39_Terminates under fairness" + (" (cached)" if getattr(res, "cached", False) else ""))
         for v in res.violations:
             ctx.violation(f"liveness:{v.name}:{n}", {"program": n, "trace": [h for h, _ in v.trace]})
+    # (3) the code follows BatchDB where readiness of later-update jobs is computed (commit of update >= 2 with parents that are
+    #     Creating / Running / finished / failed): graph replay, as in C05
+    B.run_property(ctx, "C08", [], [], ["jpim_u2"], ["jpim_u2", "upd2", "vee2", "upd3"], b2=False, merge=True, budget_quick=15, budget_thorough=200)
     ctx.assume("the schema validator runs before _create_jobs (as in the handlers)", "liveness is a property of BatchDB under the stated fairness")
